@@ -72,6 +72,8 @@ FIXED = [
   "SequentialMultiIterator::next called itself once per empty source: chaining sources with a run of 5 000+ (debug) / 50 000+ empty sources in a row overflowed the stack (process abort) instead of yielding the concatenation", "replays/examples/C09-many-empty-sources.json"),
  ("KF-C09-2", "C09", "C09-index-overflow-at-u32-max", "fix: multi iterators don't overflow after a msg with the max index",
   "with a start index such that the last message is numbered u32::MAX (e.g. one message, start index u32::MAX) both multi iterators panicked with 'attempt to add with overflow' at 'self.index += 1' before returning that message", "replays/examples/C09-last-index-u32-max.json"),
+ ("KF-C10-1", "C10", "C10-lifecycle-start-u64-max", "fix: buffer_sort_messages doesn't overflow for a lifecycle with start time",
+  "time sorting with a lifecycle table that contains an entry with start_time u64::MAX (the value Lifecycle::merge writes into a merged-away lifecycle) panicked in 'lifecycle start + timestamp' (attempt to add with overflow): the output was not a permutation of the input", "replays/examples/C10-lifecycle-start-u64-max.json"),
  ("KF-C18-1", "C18", "C18-payload_from_args-empty-string-or-raw", "fix: payload_from_args writes the length",
   "utils::payload_from_args wrote no u16 length prefix for an empty string/raw argument, so the encoded payload did not decode to the same arguments (a single empty raw value: 4 bytes written, 0 arguments decoded)",
   "replays/examples/C18-payload_from_args-empty-raw.json"),
